@@ -201,10 +201,17 @@ def searchUnlock (env : Env) : Nat → T → List (T × Subst) → Supersets →
 end
 
 /-- `make_sets` (lib.rs:1007-1034) -/
+def supYes (a b : T) : Bool :=
+  match DI.sup a b with
+  | .yes _ _ => true
+  | _ => false
+
+/-- ids that generalise each other: only the earlier one counts as the superset of the later one (lib.rs:1022-1031) -/
 def makeSets (ids : List T) : Supersets × Subsets :=
-  let pairs := ids.flatMap (fun g1 => ids.filterMap (fun g2 =>
-    if g1 == g2 then none else match sup g1 g2 with
-      | .yes σ _ => some (g1, g2, σ)
+  let ix := ids.zipIdx
+  let pairs := ix.flatMap (fun g1 => ix.filterMap (fun g2 =>
+    if g1.1 == g2.1 then none else match DI.sup g1.1 g2.1 with
+      | .yes σ _ => if g1.2 > g2.2 && supYes g2.1 g1.1 then none else some (g1.1, g2.1, σ)
       | _ => none))
   (ids.map (fun id => (id, (pairs.filter (fun p => p.2.1 == id)).length)),
    ids.map (fun id => (id, (pairs.filter (fun p => p.1 == id)).map (fun p => (p.2.1, p.2.2)))))
